@@ -189,6 +189,10 @@ def classify_pattern_disagreement(pattern, address, real_matched):
                     osc_match(alt, address, **loose) == real_matched
                     and osc_match(pattern, address, **loose) != real_matched):
                 return 'trailing-minus-in-brackets'
+        if real_matched and any(t[0] == 'set' and not t[1] and '/' in t[2]
+                                for p in pattern.split('/') for t in parse_part(p)):
+            # e.g. [!-~]: the ASCII range contains '/', the part still cannot
+            return 'bracket-range-spans-slash'
         if real_matched:
             if osc_match(pattern, address, prefix=True):
                 return 'prefix-of-address-accepted'
@@ -202,6 +206,9 @@ def classify_pattern_disagreement(pattern, address, real_matched):
         feats = sorted(pattern_features(pattern))
         return 'rejects-matching/' + ('+'.join(feats) if feats else 'literal')
     except PatternError:
+        import re
+        if ',' in re.sub(r'\{[^{}]*\}', '', pattern):
+            return 'malformed-pattern/comma-outside-braces'
         return 'malformed-pattern'
 
 
